@@ -61,6 +61,11 @@ def build_graph(ranges, equiv=None):
         t = pool[i]
         t.weight_compression_config = None
         rng = g.get_or_create_range(t, al)
+        if i % 3 == 1 and al >= 32:
+            # the compiler asks for the range of a CPU/NPU boundary tensor twice (first with the CPU tensor alignment, later with the default): the largest
+            # alignment ever requested for a range is the requested alignment
+            again = g.get_or_create_range(t, al // 2) if i % 2 else g.get_or_create_range(t)
+            assert again is rng
         rng.size = size
         rng.start_time, rng.end_time = s, e
         lrs.append(rng)
